@@ -8,6 +8,7 @@ import (
 	"sort"
 	"strings"
 	"sync"
+	"time"
 
 	"github.com/netflix/rend/common"
 	"github.com/netflix/rend/handlers"
@@ -418,6 +419,108 @@ func init() {
 			fb.StopListening()
 			fd.StopListening()
 			fd.CloseAll()
+		}
+		// ---- (d) the backend goes away while one batch is being read and others wait behind it
+		restartRounds := 6
+		if tier == "thorough" {
+			restartRounds = 40
+		}
+		for ri := 0; ri < restartRounds; ri++ {
+			waiting := 1 + ri%3
+			opts := batched.Opts{BatchSize: uint32(1 + ri%2), BatchDelayMicros: 100}
+			what := fmt.Sprintf("pool of one connection, batch size %d: the backend holds the first set unanswered, %d more caller(s) send sets, the backend closes its connections and serves again", opts.BatchSize, waiting)
+			crumb("C06 "+what, map[string]interface{}{"round": ri, "seed": seed})
+			fb, pb := newFake(fmt.Sprintf("c06r%d-", ri))
+			held, release := make(chan struct{}), make(chan struct{})
+			var once sync.Once
+			fb.Gate = func(conn int, e *fakemc.Entry) func() {
+				hold := false
+				once.Do(func() { hold = true })
+				if hold {
+					close(held)
+					<-release
+				}
+				return nil
+			}
+			type ans struct {
+				who int
+				err error
+			}
+			res := make(chan ans, waiting+1)
+			call := func(who int) {
+				h, _ := memcached.Batched(pb, opts)()
+				k := []byte(fmt.Sprintf("rk%d", who))
+				go func() { res <- ans{who, h.Set(common.SetRequest{Key: k, Data: valueFor(k, ri), Flags: uint32(who)})} }()
+			}
+			call(0)
+			select {
+			case <-held:
+			case <-time.After(5 * time.Second):
+			}
+			for w := 1; w <= waiting; w++ {
+				call(w)
+			}
+			time.Sleep(time.Duration(20+40*(ri%3)) * time.Millisecond)
+			fb.CloseAll()
+			close(release)
+			got := map[int]bool{}
+			timeout := time.After(8 * time.Second)
+		collect:
+			for len(got) < waiting+1 {
+				select {
+				case a := <-res:
+					got[a.who] = true
+					if a.err != nil {
+						rep.Violations = append(rep.Violations, Violation{What: fmt.Sprintf("%s: caller %d's set returned %v (over a direct connection that is re-established it is stored)", what, a.who, a.err), Signature: "batched-restart-error",
+							Replay: map[string]interface{}{"round": ri, "opts": fmt.Sprintf("%+v", opts), "waiting": waiting}})
+					}
+				case <-timeout:
+					var missing []int
+					for w := 0; w <= waiting; w++ {
+						if !got[w] {
+							missing = append(missing, w)
+						}
+					}
+					rep.Violations = append(rep.Violations, Violation{What: fmt.Sprintf("%s: caller(s) %v never got a reply to their own set", what, missing), Signature: "batched-restart-no-reply",
+						Replay: map[string]interface{}{"round": ri, "opts": fmt.Sprintf("%+v", opts), "waiting": waiting, "backend_requests": traceLine(fb.TakeLog())}})
+					break collect
+				}
+			}
+			if len(got) == waiting+1 {
+				h, _ := memcached.Batched(pb, opts)()
+				for w := 0; w <= waiting; w++ {
+					k := []byte(fmt.Sprintf("rk%d", w))
+					done := make(chan string, 1)
+					go func() {
+						rs, err := drainGet(h.Get(common.GetRequest{Keys: [][]byte{k}, Opaques: []uint32{7}, Quiet: []bool{false}}))
+						switch {
+						case err != nil || len(rs) != 1:
+							done <- fmt.Sprintf("get returned %d responses, err %v", len(rs), err)
+						case rs[0].Miss || !bytes.Equal(rs[0].Data, valueFor(k, ri)) || rs[0].Flags != uint32(w):
+							done <- fmt.Sprintf("get returned miss=%v data=%q flags=%d, the acknowledged set stored %q flags %d", rs[0].Miss, rs[0].Data, rs[0].Flags, valueFor(k, ri), w)
+						default:
+							done <- ""
+						}
+					}()
+					select {
+					case e := <-done:
+						if e != "" {
+							rep.Violations = append(rep.Violations, Violation{What: fmt.Sprintf("%s: afterwards, key %s: %s", what, k, e), Signature: "batched-restart-wrong",
+								Replay: map[string]interface{}{"round": ri, "opts": fmt.Sprintf("%+v", opts), "waiting": waiting}})
+						}
+					case <-time.After(8 * time.Second):
+						rep.Violations = append(rep.Violations, Violation{What: fmt.Sprintf("%s: afterwards a get of %s through the pool never returns", what, k), Signature: "batched-restart-no-reply",
+							Replay: map[string]interface{}{"round": ri, "opts": fmt.Sprintf("%+v", opts), "waiting": waiting}})
+					}
+				}
+				rep.Validated++
+			}
+			rep.Evaluations++
+			distinct[fmt.Sprintf("restart/%d", ri)] = true
+			rep.Distribution["restart-rounds"]++
+			fb.Gate = nil
+			fb.StopListening()
+			fb.CloseAll()
 		}
 		rep.Distinct = len(distinct)
 	}
